@@ -254,7 +254,64 @@ fn observe(vs: &ValueSet, clears: &[String]) -> String {
         };
         format!("{}|{:?}|{:?}|{:?}", vs.len(), protos, keys, ver)
     }));
-    r.unwrap_or_else(|e| format!("panic:{e}"))
+    format!("{}\n{}", r.unwrap_or_else(|e| format!("panic:{e}")), behave(vs))
+}
+
+fn tf(r: Result<bool, String>) -> char {
+    match r {
+        Ok(true) => 't',
+        Ok(false) => 'f',
+        Err(_) => 'P',
+    }
+}
+
+/// BEHAVIOURAL probes of a valueset (answers that may depend on derived, unstored state such as
+/// ValueSetOauth2Session::rs_filter): for every partial value the set can be asked about - its own
+/// `to_partialvalue_iter()`, every uuid `as_ref_uuid_iter()` yields, and a few absent ones - the
+/// answers of contains / substring / startswith / endswith / lessthan (t, f, or P = panic), and
+/// for the session types the effect of `remove(pv, cid)` on a clone (result, proto strings,
+/// canonical stored form afterwards).
+fn behave(vs: &ValueSet) -> String {
+    let kind = hk::kind_of(vs);
+    let mut pvs: Vec<PartialValue> = guarded(AssertUnwindSafe(|| vs.to_partialvalue_iter().collect::<Vec<_>>())).unwrap_or_default();
+    let refs: Vec<Uuid> = guarded(AssertUnwindSafe(|| vs.as_ref_uuid_iter().map(|i| i.collect::<Vec<_>>()).unwrap_or_default())).unwrap_or_default();
+    pvs.extend(refs.iter().map(|u| PartialValue::Refer(*u)));
+    for u in [Uuid::from_u128(0), Uuid::from_u128(u128::MAX), Uuid::from_u128(0xdead_beef_0000_0000_0000_0000_0000_c12c), Uuid::from_u128(1 << 77)] {
+        pvs.push(PartialValue::Refer(u));
+        pvs.push(PartialValue::Uuid(u));
+    }
+    pvs.push(PartialValue::new_utf8s("c12-absent"));
+    pvs.push(PartialValue::new_iutf8("c12-absent"));
+    pvs.push(PartialValue::new_iname("c12-absent"));
+    pvs.push(PartialValue::new_utf8s("a"));
+    pvs.push(PartialValue::new_iutf8("a"));
+    pvs.push(PartialValue::Bool(true));
+    pvs.push(PartialValue::Uint32(5000));
+    pvs.sort();
+    pvs.dedup();
+    let session_like = kind == "Session" || kind == "Oauth2Session" || kind == "ApiTokenSet";
+    let cid = Cid { ts: Duration::from_secs(777), s_uuid: Uuid::from_u128(0x777) };
+    let mut out: Vec<String> = vec![format!("len={}", guarded(AssertUnwindSafe(|| vs.len())).map(|n| n.to_string()).unwrap_or_else(|_| "P".into()))];
+    for pv in &pvs {
+        let mut line = format!("{:?}:", pv);
+        line.push(tf(guarded(AssertUnwindSafe(|| vs.contains(pv)))));
+        line.push(tf(guarded(AssertUnwindSafe(|| vs.substring(pv)))));
+        line.push(tf(guarded(AssertUnwindSafe(|| vs.startswith(pv)))));
+        line.push(tf(guarded(AssertUnwindSafe(|| vs.endswith(pv)))));
+        line.push(tf(guarded(AssertUnwindSafe(|| vs.lessthan(pv)))));
+        if session_like && matches!(pv, PartialValue::Refer(_)) {
+            let mut c = vs.clone();
+            let r = guarded(AssertUnwindSafe(|| {
+                let removed = c.remove(pv, &cid);
+                let mut protos: Vec<String> = c.to_proto_string_clone_iter().collect();
+                protos.sort();
+                format!("rm={} {:?} {}", removed, protos, hk::vs_stored_canon(&c))
+            }));
+            line.push_str(&r.unwrap_or_else(|e| format!("rm=P({e})")));
+        }
+        out.push(line);
+    }
+    out.join("\n")
 }
 
 struct Pool {
@@ -272,6 +329,8 @@ impl Pool {
     fn id(&mut self, vs: &ValueSet, pw: &[u64]) -> usize {
         let kind = hk::kind_of(vs);
         let canon = guarded(AssertUnwindSafe(|| hk::vs_stored_canon(vs))).unwrap_or_else(|e| format!("panic:{e}"));
+        // identity = type + canonical stored form + behavioural probes (derived state is not stored)
+        let canon = format!("{}\n{}", canon, behave(vs));
         if let Some(i) = self.index.get(&(kind.clone(), canon.clone())) {
             return *i;
         }
@@ -561,7 +620,7 @@ fn main() {
     std::panic::set_hook(Box::new(|i| eprintln!("panic: {}", i.to_string().replace(char::from(10), " "))));
     let mut rng = Rng::new(args.seed);
     let mut sink = Sink::new(&args, "KV.C12.Model", 400);
-    sink.rule = "passwords: every import format of libs/crypto with its known cleartext, random syntactically valid imports of every format, generated argon2id/pbkdf2 passwords of random cleartexts, random DbPasswordV1 of all 15 constructors; valuesets: 1..3 random elements of each of the 49 in-memory valueset types (hook generator), credentials built over every KDF; entries: every entry of a freshly initialised server plus synthetic entries over the generated valuesets (random change states incl. tombstones, empty sets, missing/multi uuid, unreplicated attributes, random incremental windows). non-trivial = a password that verifies a cleartext / a non-empty valueset / an entry with a non-empty attribute".into();
+    sink.rule = "passwords: every import format of libs/crypto with its known cleartext, random syntactically valid imports of every format, generated argon2id/pbkdf2 passwords of random cleartexts, random DbPasswordV1 of all 15 constructors; valuesets: 1..3 random elements of each of the 49 in-memory valueset types (hook generator), credentials built over every KDF; entries: every entry of a freshly initialised server plus synthetic entries over the generated valuesets (random change states incl. tombstones, empty sets, missing/multi uuid, unreplicated attributes, random incremental windows). behavioural probes (contains/substring/startswith/endswith/lessthan for every own partial value, every referenced uuid and absent ones; remove-by-reference on session types) must be identical before and after each round trip and are part of a valueset's identity in entry cases. non-trivial = a password that verifies a cleartext / a non-empty valueset / an entry with a non-empty attribute".into();
     let scale = if args.thorough { 10 } else { 1 };
 
     // ---------------------------------------------------------------- passwords
@@ -681,6 +740,32 @@ fn main() {
         }
         if any {
             kinds_generated += 1;
+        }
+    }
+    // larger session-type sets: unions of generated sets (2..9 sessions of different clients)
+    for kind in ["Oauth2Session", "Session", "ApiTokenSet"] {
+        let base: Vec<ValueSet> = synth.iter().filter(|(v, _)| hk::kind_of(v) == kind).map(|(v, _)| v.clone()).collect();
+        if base.len() < 2 {
+            continue;
+        }
+        for _ in 0..(10 * scale) {
+            let mut acc = rng.pick(&base).clone();
+            for _ in 0..rng.range(1, 2) {
+                let other = rng.pick(&base).clone();
+                let _ = guarded(AssertUnwindSafe(|| acc.merge(&other)));
+            }
+            // sometimes revoke one client's sessions first
+            if rng.chance(1, 3) {
+                let refs: Vec<Uuid> = acc.as_ref_uuid_iter().map(|i| i.collect()).unwrap_or_default();
+                if !refs.is_empty() {
+                    let u = *rng.pick(&refs);
+                    let cid = Cid { ts: Duration::from_secs(5), s_uuid: Uuid::from_u128(9) };
+                    let _ = guarded(AssertUnwindSafe(|| acc.remove(&PartialValue::Refer(u), &cid)));
+                }
+            }
+            sink.bump("vs_merged_session_sets");
+            emit_vs(&mut sink, kind, &[], &acc, &clears);
+            synth.push((acc, vec![]));
         }
     }
     sink.add_stat("valueset_types_generated", kinds_generated);
